@@ -185,6 +185,10 @@ func checkExec(cs *execCase, o *pt.Obs) error {
 			}
 			return pt.Inconclusivef("ingest: %v", err)
 		}
+		// baseline of the exact goroutine oracle: everything alive after ingest, before the first query
+		if err := c.Call(&sut.Req{Op: "c17_gbase"}, nil); err != nil {
+			return pt.Inconclusivef("goroutine baseline: %v", err)
+		}
 		answered, rejected := 0, 0
 		for qi, q := range cs.Queries {
 			o.Class("lang_" + q.Lang)
@@ -251,6 +255,37 @@ func checkExec(cs *execCase, o *pt.Obs) error {
 						where, outcome, st.Active, st.Waiting)
 				}
 			}
+		}
+		// every query of the case has ended (answered or rejected): no goroutine of any of them may remain.
+		// A goroutine counts as staying when it was started after the baseline, has a frame in a per-query
+		// package and sits in a waiting state with an unchanged stack for leakStableMs (3 s); goroutines that
+		// still move when the budget ends are residual work, not a verdict.
+		var gl gLeakRep
+		if err := c.Call(&sut.Req{Op: "c17_gleak", Size: 20_000}, &gl); err != nil {
+			if errors.Is(err, sut.ErrWorkerDied) {
+				return fmt.Errorf("server process exited after the last query of the case had returned: %s", pt.CrashDetail(c))
+			}
+			return pt.Inconclusivef("goroutine check: %v", err)
+		}
+		o.Count("exec_goroutine_dumps_compared", int64(gl.Dumps))
+		if len(gl.Leaked) > 0 {
+			var sb strings.Builder
+			for i, lg := range gl.Leaked {
+				if i >= 6 {
+					fmt.Fprintf(&sb, "... and %d more\n", len(gl.Leaked)-i)
+					break
+				}
+				fmt.Fprintf(&sb, "--- goroutine %d [%s], unchanged for %d ms, in %s:\n%s\n", lg.ID, lg.State, lg.StableMs, lg.Func, clipStr(lg.Stack, 1500))
+			}
+			var qs []string
+			for _, q := range cs.Queries {
+				qs = append(qs, fmt.Sprintf("(%s) %q", q.Lang, clipStr(q.Text, 200)))
+			}
+			return fmt.Errorf("%d goroutine(s) of finished queries stay after all %d queries of the case were answered or rejected (%d answered, %d rejected):\n%squeries: %s",
+				len(gl.Leaked), len(cs.Queries), answered, rejected, sb.String(), strings.Join(qs, " ; "))
+		}
+		if gl.Moving > 0 {
+			o.Count("exec_goroutines_still_moving_at_budget", int64(gl.Moving))
 		}
 		if answered > 0 {
 			o.NonTrivial()
